@@ -24,16 +24,9 @@ const MARGIN: f64 = 1.0 + 0.70711;
 pub fn render(c: &Case) -> Vec<u32> {
     let mut dt = DrawTarget::new(c.w, c.h);
     let white = Source::Solid(SolidSource { r: 255, g: 255, b: 255, a: 255 });
-    // in a third of the cases an unrelated clip path has been pushed and popped before (its path state must not
-    // reach the path under test, which may well begin without a move_to)
-    if (c.w + 2 * c.h + c.path.ops.len() as i32) % 3 == 0 {
-        let mut pb = PathBuilder::new();
-        pb.move_to(c.w as f32 * 0.25, c.h as f32 * 0.75);
-        pb.line_to(c.w as f32 * 0.9, c.h as f32 * 0.5);
-        pb.quad_to(c.w as f32, 0.0, c.w as f32 * 0.5, 1.0);
-        dt.push_clip(&pb.finish());
-        dt.pop_clip();
-    }
+    // (C10's harmless preludes, e.g. an unrelated clip path pushed and popped: their path state must not reach
+    // the path under test, which may well begin without a move_to)
+    harmless_prelude(&mut dt, (c.w * 7 + c.h * 13 + c.path.ops.len() as i32 * 5) as u32 % 12);
     dt.set_transform(&to_transform(&c.xf));
     let p = c.path.build();
     if c.as_clip {
